@@ -186,7 +186,7 @@ def r5_returned_handle(ctx):
     T = ctx.tracer
     out = []
     b = F.body(MK)
-    ro = T.return_origins(b, ("0",))
+    ro = T.return_origins(b, OKP)
     ok = bool(ro) and all(o.kind == "call" and o.term.callee in ("syscalls::openat", "handle::Handle::reopen") and o.term.body is b for o in ro)
     if ok:
         out.append(holds("C12.R5", "mkdir_all:returned-handle", b.where(), "handle = last step open, or the reopened existing directory"))
